@@ -99,6 +99,7 @@ def dispatch(I, st, callee, target, args, ctx):
 def unknown_external(I, st, callee, target, args, ctx):
     k = xkeys(callee, target)[0]
     I.unknown_ext.setdefault(k, []).append((ctx["body"]["def"], ctx["term"].get("loc")))
+    st.event("extcall", k, tuple((a.cell, a.path) if isinstance(a, VRef) else None for a in args))
     dest = ctx["term"]["dest"]
     ty = ctx["body"]["locals"][dest["l"]] if not dest["p"] else None
     return [(st, VOpaque("ext:" + k, ty))]
@@ -1405,6 +1406,27 @@ def h_try_into(I, st, callee, target, args, ctx):
 def h_index(I, st, callee, target, args, ctx):
     r, idx = args
     v = deref(I, st, r)
+    if isinstance(idx, VAdt) and "::ops::range::" in idx.adt:
+        kind = idx.adt.rsplit("::", 1)[1]
+        if isinstance(v, VSeq):
+            v = VSlice(("seq", v.term), Lin.const(0), I.seq_len(st, v.term))
+        if isinstance(v, VSlice) and kind in ("Range", "RangeFrom", "RangeTo", "RangeFull"):
+            lo = Lin.const(0)
+            hi = v.len
+            if kind == "Range":
+                lo, hi = lin_of(st, idx.fields[0]), lin_of(st, idx.fields[1])
+            elif kind == "RangeFrom":
+                lo = lin_of(st, idx.fields[0])
+            elif kind == "RangeTo":
+                hi = lin_of(st, idx.fields[0])
+            d1 = decide_le0(st, lo - hi, "slice range order") if not (lo - hi).is_const() else (lo - hi).c <= 0
+            d2 = decide_le0(st, hi - v.len, "slice range end") if not (hi - v.len).is_const() else (hi - v.len).c <= 0
+            okk = bool(d1) and bool(d2)
+            panic_obligation(I, st, ctx, "slice index out of range", okk, None if okk else "range %r..%r of a slice of length %r" % (lo, hi, v.len))
+            if not okk:
+                return []
+            return [(st, VSlice(v.buf, v.start + lo, hi - lo))]
+        raise Unanalysable("range index %s on %r" % (kind, v))
     if isinstance(v, VSeq) and isinstance(idx, VInt):
         ln = I.seq_len(st, v.term)
         il = lin_of(st, idx)
